@@ -33,6 +33,7 @@ POLICIES = {
     1: psock.RETRY_NON_IDEMPOTENT,
     2: psock.RETRY_CONNECTED,
     3: psock.RetryPolicy(max_retries=1, max_lifetime=3.0),
+    4: psock.RetryPolicy(max_retries=1, max_lifetime=2),       # lifetime given as an int
 }
 
 
@@ -243,6 +244,8 @@ class TimerTie(Exception):
 class SockRunner:
     def __init__(self, gen: int) -> None:
         self.gen = gen
+        from . import bystander
+        bystander.ensure_sock(gen)              # a second socket of this generation is alive in the process
         self.loop, self.net = vloop.new_loop()
         asyncio.set_event_loop(self.loop)
         self.reg = registry(gen)
@@ -409,6 +412,8 @@ class SockRunner:
             cur = net.current()
             if cur is not None:
                 cur.transport.peer_bytes(bad_input(self.gen, st[1]))
+        elif kind == "lostparked":
+            pass        # marker for the monitors: the next stimulus kills the link while drain loops are suspended
         elif kind == "burn":
             # consume packet ids (public header factory) until the next send gets id st[1]: puts the wrap of the
             # 256-value counter inside the scenario; outside the model, monitors only
@@ -472,6 +477,10 @@ class SockRunner:
 
 def run_script(gen: int, script: list[tuple]):
     r = SockRunner(gen)
+    # which OSError class the first failing write reports depends on the script (all six classes get their turn as
+    # the FIRST fault: ConnectionResetError, EHOSTUNREACH, BrokenPipeError, ETIMEDOUT, ConnectionAbortedError, ENETUNREACH)
+    import zlib
+    r.net.error_index = zlib.crc32(repr(script).encode()) % 6 - 1
     try:
         out = []
         for st in script:
